@@ -298,7 +298,14 @@ func (in *Interp) visitInstr(fr *frame, instr ssa.Instruction) continuation {
 		fr.env[fr.info.idx[instr]] = m
 
 	case *ssa.Range:
+		// map iteration order is a symbolic choice only in the code under test: the harness' own loops over its
+		// reference maps (zz_vf_*.go) are order-insensitive sums / assertion loops and use insertion order
+		saved := in.mapOrderNondet
+		if saved && fr.info.harnessCode {
+			in.mapOrderNondet = false
+		}
 		fr.env[fr.info.idx[instr]] = in.rangeIter(fr.get(instr.X))
+		in.mapOrderNondet = saved
 
 	case *ssa.Next:
 		fr.env[fr.info.idx[instr]] = fr.get(instr.Iter).(iter).next()
@@ -629,6 +636,8 @@ func toStringish(v value) value {
 type fnInfo struct {
 	idx map[ssa.Value]int32
 	n   int
+	// harnessCode: the function is defined in a harness file (zz_vf_*.go of the overlay)
+	harnessCode bool
 }
 
 func (w *Worker) fnInfoOf(fn *ssa.Function) *fnInfo {
@@ -636,6 +645,11 @@ func (w *Worker) fnInfoOf(fn *ssa.Function) *fnInfo {
 		return fi
 	}
 	fi := &fnInfo{idx: map[ssa.Value]int32{}}
+	if fn.Prog != nil && fn.Pos().IsValid() {
+		fi.harnessCode = strings.HasPrefix(filepathBase(fn.Prog.Fset.Position(fn.Pos()).Filename), "zz_vf")
+	} else if p := fn.Parent(); p != nil && p.Pos().IsValid() {
+		fi.harnessCode = strings.HasPrefix(filepathBase(p.Prog.Fset.Position(p.Pos()).Filename), "zz_vf")
+	}
 	add := func(v ssa.Value) {
 		if _, ok := fi.idx[v]; !ok {
 			fi.idx[v] = int32(fi.n)
